@@ -34,7 +34,7 @@ let () =
     let mult = match List.filter (fun x -> tag x = "mult") obs with
       | m :: _ -> int_of_sx (List.hd (args m)) | [] -> 1 in
     let plans = List.find (fun x -> tag x = "plans") obs in
-    add "graphs_planned" mult;
+    add "graph_orders_or_plannings" mult;
     (match args plans with
      | [p] when tag p = "panic" ->
          propfail id ("the planner panicked (" ^ string_of_sx p ^ ") on a commit graph")
